@@ -8,6 +8,15 @@
 open Model
 open Mlib
 
+(* mlib prints at most 2000 monitor failures in all; the known findings fire thousands of times in the thorough tier,
+   so only the first 25 of each signature are printed (all are counted) - a new signature is never crowded out *)
+let sig_count : (string, int) Hashtbl.t = Hashtbl.create 16
+let specviol id signature detail =
+  let n = try Hashtbl.find sig_count signature with Not_found -> 0 in
+  Hashtbl.replace sig_count signature (n + 1);
+  stat "monitor-failures-total";
+  if n < 25 then Mlib.specviol id signature detail else stat ("viol:" ^ signature)
+
 (* ------------------------------------------------------------------ numbers *)
 let rec pos_of_u64 (x : int64) : positive =
   if x = 1L then XH
